@@ -41,7 +41,7 @@ UNDECLARED_MECH = ("the watcher hashes a changed file whose node is detached and
 
 EVENT_KINDS = ["modify_source", "modify_source", "create_match", "delete_match", "modify_output",
                "delete_output", "remove_dir", "new_subdir", "move_dir", "create_delete", "modify_restore",
-               "delete_source", "restore_source", "touch_source", "new_sibling_dir"]
+               "delete_source", "restore_source", "touch_source", "new_sibling_dir", "new_empty_dir"]
 
 _installed = {"done": False}
 
@@ -65,12 +65,41 @@ def install_watch_hook():
     _installed["done"] = True
 
 
+ORDER_MECH = ("an externally modified output and a change upstream of it arrive in one batch: whether "
+              "the consumers of the output are made pending depends on the order in which the two are applied")
+
+
+def classify_graph_difference(ga, gb):
+    """ORDER_MECH when the two attached graphs have the same nodes and relations and differ only
+    in how far 'pending' has spread: step states SUCCEEDED / PENDING and file states
+    BUILT / OUTDATED / PLANNED (with the digests that go with them)."""
+    pa, pb = H.parse_graph(ga), H.parse_graph(gb)
+    if set(pa) != set(pb):
+        return None
+    volatile_keys = {"state", "inp_digest", "out_digest", "explained", "digest", "mode", "size", "mtime", "inode"}
+    for head in pa:
+        a, b = pa[head], pb[head]
+        if sorted(a["rels"]) != sorted(b["rels"]):
+            return None
+        da = [(k, v) for k, v in a["props"] if k not in volatile_keys]
+        db = [(k, v) for k, v in b["props"] if k not in volatile_keys]
+        if da != db:
+            return None
+        sa = [v for k, v in a["props"] if k == "state"]
+        sb = [v for k, v in b["props"] if k == "state"]
+        if sa != sb:
+            allowed = ({"SUCCEEDED", "PENDING"}, {"BUILT", "OUTDATED", "PLANNED"})
+            if not any(set(sa) | set(sb) <= grp for grp in allowed):
+                return None
+    return ORDER_MECH
+
+
 def gen_cases(tier, seed):
     n = 16 if tier == "quick" else 300
     cases = [{"id": f"c14-{seed}-{i}", "seed": seed * 6007 + i, "rounds": 4 if tier == "quick" else 6}
              for i in range(n)]
     cases += [{"id": f"c14-deep-{seed}-{i}", "seed": seed * 6007 + 90000 + i, "rounds": 4, "scenario": "deep_glob"}
-              for i in range(4 if tier == "quick" else 40)]
+              for i in range(24 if tier == "quick" else 80)]
     return cases
 
 
@@ -164,6 +193,17 @@ def apply_event(rng, kind, user_files, memory):
         user_files[p] = True
         memory["newdir"] = True
         return f"create directory {sub} with {p}"
+    if kind == "new_empty_dir" and srcdirs:
+        d = rng.choice(srcdirs)
+        parent = os.path.dirname(d)
+        if not parent:
+            return None
+        sub = os.path.join(parent, f"e{rng.randrange(10)}")
+        if os.path.exists(sub):
+            return None
+        os.makedirs(sub)
+        memory["newdir"] = True
+        return f"create empty directory {sub}"
     if kind == "new_sibling_dir" and srcdirs:
         d = rng.choice(srcdirs)
         parent = os.path.dirname(d)
@@ -231,7 +271,8 @@ def run_case(case):
     rng = random.Random(case["seed"])
     install_watch_hook()
     counters = dict.fromkeys(["evaluations", "build_errors", "restart_errors", "barrier_timeouts",
-                              "rounds_without_events", "rounds_after_divergence"] + REQUIRED_COUNTERS, 0)
+                              "rounds_without_events", "rounds_after_divergence",
+                              "rounds_where_only_detached_memory_differs"] + REQUIRED_COUNTERS, 0)
     violations = []
     classes = set()
     witness = {"case": case["id"]}
@@ -289,6 +330,8 @@ def run_case(case):
                     memory["newdir"] = False
                     for _ in range(rng.choice([1, 1, 2, 3])):
                         kind = rng.choice(EVENT_KINDS)
+                        if case.get("scenario") == "deep_glob" and rng.random() < 0.4:
+                            kind = rng.choice(["new_empty_dir", "new_sibling_dir", "remove_dir", "move_dir"])
                         desc = apply_event(rng, kind, user_files, memory)
                         if desc:
                             events.append([kind, desc])
@@ -399,11 +442,19 @@ def run_case(case):
                     continue
                 graph, _g = H.graph_text(attached_only=False)
                 if graph != r["graph"]:
-                    ga, gb = set(r["graph"].split("\n\n")), set(graph.split("\n\n"))
-                    vio(mech_suffix or "graph after the watch-mode rebuild differs from a restart",
-                        f"{what}: only watch {[x[:160] for x in sorted(ga - gb)[:2]]} only restart "
-                        f"{[x[:160] for x in sorted(gb - ga)[:2]]}")
-                    diverged = True
+                    # detached nodes are memories of former lives: only the attached part of the
+                    # graph is compared (as in C01); a difference there alone is counted
+                    ga = H.canonical_graph(r["graph"], attached_only=True)
+                    gb = H.canonical_graph(graph, attached_only=True)
+                    if ga == gb:
+                        counters["rounds_where_only_detached_memory_differs"] += 1
+                    else:
+                        mech = classify_graph_difference(ga, gb) or \
+                            "graph after the watch-mode rebuild differs from a restart"
+                        sa, sb = set(ga.split("\n\n")), set(gb.split("\n\n"))
+                        vio(mech, f"{what}: only watch {[x[:160] for x in sorted(sa - sb)[:2]]} only restart "
+                                  f"{[x[:160] for x in sorted(sb - sa)[:2]]}")
+                        diverged = True
             finally:
                 os.chdir(cwd)
     finally:
